@@ -117,6 +117,10 @@ def main(chk, pid, tier, seed, replay):
             if d != ref.get((s, "digest")):
                 violations.append({"sub": "feature_matrix", "key": f"digest_differs:set{s}", "case": case,
                                    "what": f"configuration [{label}]: KAT digest of ML-DSA-{s} is {d}, the reference model (and the default configuration) give {ref.get((s, 'digest'))}"})
+            bh = got.get((s, "behave"))
+            if bh != ref.get((s, "behave")):
+                violations.append({"sub": "feature_matrix", "key": f"behaviour_differs:set{s}", "case": case,
+                                   "what": f"configuration [{label}]: API-behaviour digest of ML-DSA-{s} (derived/round-tripped key bytes, malformed-key rejection, 256-byte context handling, RNG-failure reporting, internal interface KAT, wipe on drop, signatures of a crafted extreme-t0 key) is {bh}, expected {ref.get((s, 'behave'))}"})
             if "dudect" in feat:
                 dd = got.get((s, "dudect"))
                 if s in dud_ref and dud_ref[s] != dd:
